@@ -206,4 +206,14 @@ theorem threadMesh_structure (dMin dMaj pitch length : ℝ) (segments : Nat) (li
   obtain ⟨n, hn, sh⟩ := ThreadLemmas.threadMesh_shape dMin dMaj pitch length segments li lo left m h
   exact ⟨n, hn, sh.points, sh.faces, fun f hf => ⟨sh.tri f hf, sh.valid f hf⟩, sh.startZ⟩
 
+/-- **C16, radii.** Every vertex of the thread mesh lies between the minor radius `d_min/2` and the
+major radius `d_maj/2` (for 0 ≤ d_min ≤ d_maj and a lead-in angle ≥ 0), for every pitch, length,
+segment count, lead-out angle and hand — proved by a second loop invariant over the builder's fold
+(the interpolated lead-in/lead-out profile points never leave `[d_min/2, d_maj/2]`). -/
+theorem threadMesh_radii (dMin dMaj pitch length : ℝ) (segments : Nat) (li lo : ℝ) (left : Bool) (m : Mesh ℝ)
+    (h : threadMesh dMin dMaj pitch length segments li lo left = some m)
+    (h0 : 0 ≤ dMin) (h1 : dMin ≤ dMaj) (hli : 0 ≤ li) :
+    ∀ p ∈ m.points, (dMin / 2) ^ 2 ≤ p.x ^ 2 + p.y ^ 2 ∧ p.x ^ 2 + p.y ^ 2 ≤ (dMaj / 2) ^ 2 :=
+  ThreadLemmas.threadMesh_radii dMin dMaj pitch length segments li lo left m h h0 h1 hli
+
 end ScadVerif.C16
